@@ -414,7 +414,8 @@ func goStack(st []stackEntry) *stack.Stack[heur.StackMove] {
 }
 
 type pickResult struct {
-	seq      []wm
+	seq      []wm // (move, weight) at the time of each yield
+	final    []wm // YieldedMoves() after exhaustion: what FailHigh would be handed
 	panicked bool
 }
 
@@ -433,6 +434,7 @@ func runPicker(b *board.Board, hm move.Move, ms *move.Store, mr *heur.MoveRanker
 			break
 		}
 	}
+	res.final = append(res.final, p.YieldedMoves()...)
 	ms.Pop()
 	return
 }
@@ -441,7 +443,7 @@ func (e *env) c16() {
 	n := e.c.Pick(600, 30000)
 	nRandom := e.c.Pick(200, 40)
 	rng := e.c.Rng
-	e.r.Rule = "valid positions x {no hash move, every generated move, 200 (quick) / 40 (thorough) random 15-bit encodings (foreign moves of other positions, promotion flags on non-promotions, from-squares without an own man, near misses of generated moves)} x history states driven through the exported API (NewMoveRanker/FailHigh/RankNoisy/RankQuiet, stack.Stack) by random FailHigh scripts and by saturating ones (>= 5000 identical updates with extreme depths to the same cells); the sequence (move, weight) yielded by the real picker.Picker vs the Lean picker model whose ranker replays the same script; checked in Go directly: yielded multiset = generated pseudo-legal moves, no duplicates, hash move first iff IsPseudoLegal, every noisy weight inside the good/bad capture band and every quiet weight within +-3*MaxHistory; evaluations = picker runs; non-trivial = run whose hash move is pseudo-legal (stage 1 + sentinel path) or whose position has both good and bad captures, distinct by (FEN, hash move, history script number)"
+	e.r.Rule = "valid positions x {no hash move, every generated move, 200 (quick) / 40 (thorough) random 15-bit encodings (foreign moves of other positions, promotion flags on non-promotions, from-squares without an own man, near misses of generated moves)} x history states driven through the exported API (NewMoveRanker/FailHigh/RankNoisy/RankQuiet, stack.Stack) by random FailHigh scripts and by saturating ones (>= 5000 identical updates with extreme depths to the same cells); the sequence (move, weight) yielded by the real picker.Picker (and for every 8th run exhaustion + the final YieldedMoves() buffer) vs the Lean picker model whose ranker replays the same script; checked in Go directly: yielded multiset = generated pseudo-legal moves, no duplicates, hash move first iff IsPseudoLegal, every noisy weight inside the good/bad capture band and every quiet weight within +-3*MaxHistory; evaluations = picker runs; non-trivial = run whose hash move is pseudo-legal (stage 1 + sentinel path) or whose position has both good and bad captures, distinct by (FEN, hash move, history script number)"
 	mr := heur.NewMoveRanker()
 	ms := move.NewStore()
 	script := 0
@@ -570,7 +572,7 @@ func (e *env) c16() {
 			}
 			impl := wmsStr(res.seq)
 			if k%8 == 0 {
-				impl += "|1"
+				impl += "|1|" + wmsStr(res.final)
 			}
 			if res.panicked {
 				impl = "panic"
